@@ -229,7 +229,9 @@ class C20:
                     htr.append([l, v, max(0, order.index(v) - 1) if tie else order.index(v)])
             prof["hier"] = {"hl": hl, "htr": htr, "stat": stat, "dynp": dynp, "dyn": dyn, "holes": holes}
             yield {"cls": 1 if directed else 0, "rem": 1, "ops": ops, "labels": labels, "start": start, "delta": delta, "alphas": alphas, "prof": prof,
-                   "ptype": rng.randint(0, 4), "nmap": nmap, "lmap": lmap, "equal": mode == 1, "ids": "int", "src": "rand",
+                   "ptype": rng.randint(0, 4), "nmap": nmap, "lmap": lmap, "equal": mode == 1,
+                   "ids": "ustr" if i % 8 == 5 else "int",      # node ids with the '_' of the DAG's occurrence names (a, a_1, a_1_2, _d, e_)
+                   "src": "rand",
                    "presort": i % 2 == 1}
 
     @staticmethod
